@@ -559,6 +559,8 @@ def emit_out(res) -> str:
     if t == "raise":
         return "(Raise %s)" % {"TypeError": "TypeError", "ValueError": "ValueError"}.get(res["cls"], "OtherError")
     if t == "arr":
+        if res["arr"] is None:
+            return "RetNone"                     # a getter returned None instead of raising
         return f"(RetArr {emit_arr(res['arr'])})"
     if t == "bool":
         return f"(RetBool {core.cbool(res['v'])})"
